@@ -78,5 +78,13 @@ def step (s : TreeSet) (op : Spec.OrdSet.Op) (m : Mem) : Out Ã— TreeSet Ã— Mem Ã
   | .lesserThan e => let r := s.lesserThan cmp e; ({ st := some r.1, val := r.2.1 }, s, m, r.2.2)
   | .foreach => ({ log := s.foreach }, s, m, 0)
 
+/-- a history; every call starts with its own allocator schedule -/
+def run (s : TreeSet) : List (Spec.OrdSet.Op Ã— List Bool) â†’ Mem â†’ List Out Ã— List (Nat Ã— Nat) Ã— TreeSet Ã— Mem
+  | [], m => ([], [], s, m)
+  | (op, sched) :: rest, m =>
+    let r := s.step cmp op (m.begin sched)
+    let rs := run r.2.1 rest r.2.2.1
+    (r.1 :: rs.1, (s.size, r.2.2.2) :: rs.2.1, rs.2.2)
+
 end TreeSet
 end CC
